@@ -2,6 +2,7 @@ SPECIFICATION Spec
 CONSTANTS
   Cases <- MCCases
   MACases <- MCMACases
+  Variant = "ok"
 INVARIANT LeadingBatch
 INVARIANT OneHotDef
 INVARIANT MultiOneHotDef
